@@ -5,3 +5,10 @@ import QV.Generated.Tables
 import QV.Properties.C14
 import QV.Generated.Tsig
 import QV.Properties.C11
+import QV.Properties.C15
+import QV.Generated.Validation
+import QV.Properties.C06
+import QV.Properties.C20
+import QV.Properties.C21
+import QV.Properties.C22
+import QV.Properties.C17
